@@ -126,6 +126,8 @@ class Normaliser:
         self._ready: dict[int, ast.FunctionDef] = {}
         self._stack: list[str] = []
         self._site_names: dict[tuple[int, str, int], dict[str, str]] = {}
+        self._caller_locals: dict[int, set[str]] = {}
+        self._keep: list[set[str]] = []          # keeps the name sets alive (their id() is a key)
 
     # ------------------------------------------------------------------------------------------ classification
     def _helper_ok(self, h: ast.FunctionDef) -> bool:
@@ -273,7 +275,8 @@ class Normaliser:
         params = [a.arg for a in h.args.args] + [a.arg for a in h.args.kwonlyargs]
         hlocals = stored | set(params)
         free = {n.id for s in body for n in ast.walk(s) if isinstance(n, ast.Name)} - hlocals
-        if free & caller_names - set(self.funcs) - set(self.classes):
+        caller_locals = self._caller_locals.setdefault(id(caller_names), set(caller_names))
+        if free & caller_locals:
             # a global of the helper that the caller shadows with a local
             raise _No("free name of the helper is a local of the caller")
         rename: dict[str, str] = {}
@@ -310,6 +313,7 @@ class Normaliser:
         for n in sorted(stored - set(params)):
             rename[n] = fresh(n)
         caller_names |= taken
+        caller_locals |= set(rename.values())
 
         class R(ast.NodeTransformer):
             def visit_Name(self, node: ast.Name) -> ast.AST:
@@ -548,7 +552,10 @@ class Normaliser:
         if id(fn) in self._ready:
             return self._ready[id(fn)]
         self._ready[id(fn)] = fn            # recursion guard: a recursive reference sees the untouched definition
-        names = _stored_names(fn)
+        # every name the caller mentions is taken: a helper local must not capture a global / builtin the caller uses
+        names = _stored_names(fn) | {n.id for n in ast.walk(fn) if isinstance(n, ast.Name)}
+        self._caller_locals[id(names)] = _stored_names(fn)
+        self._keep.append(names)
         self._stack.append(fn.name)
         try:
             return self._prepare(fn, names)
